@@ -117,6 +117,19 @@ def check_state(job):
                     out.append((["C07"], "interpolate_value", "interpolate differs from the documented kernel sum: got %s, expected %s" % (np.asarray(y).ravel()[:2], ex[:2])))
                 if not (np.array_equal(g, g0) and np.array_equal(coord, c0)):
                     out.append((["C02", "C07"], "input_mutated", "interpolate modified an argument"))
+                if cplx:
+                    # grid data and coordinates in other memory layouts (Fortran order, strided views)
+                    for (lab, gv), (_, cv) in zip(core.layouts(g) or [("C", g)] * 2, core.layouts(coord)):
+                        gv0, cv0 = gv.copy(), cv.copy()
+                        try:
+                            yv = sp.interpolate(gv, cv, kernel=kern, width=wd, param=pr)
+                        except Exception as e:
+                            out.append((["C07"], "exception", "interpolate raised %r for %s arguments" % (e, lab)))
+                            continue
+                        if yv.shape != (2,) or not np.allclose(yv, ex, atol=tol * sc, rtol=0):
+                            out.append((["C07"], "interpolate_value", "interpolate with %s arguments differs from the documented kernel sum" % lab))
+                        if not (np.array_equal(gv, gv0) and np.array_equal(cv, cv0)):
+                            out.append((["C02", "C07"], "input_mutated", "interpolate modified a %s argument" % lab))
                 v = rs.randn(2) + (1j * rs.randn(2) if cplx else 0)
                 try:
                     gg = sp.gridding(v, coord, grid, kernel=kern, width=wd, param=pr)
